@@ -1,7 +1,9 @@
 (** wsync/hashes.go [βhash]: the weak hash of a whole block, with Go's [uint32] arithmetic:
     every intermediate result wraps at 2^32 ([u32] = keep the low 32 bits), [_M = 1 << 16] and
     [x % _M] keeps the low 16 bits.  Sig/WeakProofs.v shows [u32 x = x mod 2^32],
-    [low16 x = x mod 2^16].  Self-contained on purpose (no dependency on the Wsync/ models). *)
+    [low16 x = x mod 2^16], [sub32 (u32 x) (u32 y) = (x - y) mod 2^32] for [y <= x].  No bound on
+    the length of the block is assumed anywhere (the arithmetic is Go's for every length).
+    Self-contained on purpose (no dependency on the Wsync/ models). *)
 From Wharf Require Import Base.Prelude.
 Local Open Scope N_scope.
 
@@ -9,16 +11,22 @@ Definition u32 (x : N) : N := N.land x 4294967295.
 Definition low16 (x : N) : N := N.land x 65535.
 Definition M16 : N := 65536.
 
+(** Go's [uint32] subtraction [x - y] for [x, y < 2^32]: it wraps around modulo 2^32 *)
+Definition sub32 (x y : N) : N := u32 (x + 4294967296 - y).
+
 (** the [for i, val := range block] loop; [len] = len(block), [i] the index of the head of [block]:
     [a += uint32(val)]; [b += (uint32(len(block)-1) - uint32(i) + 1) * uint32(val)].
-    ([i <= len-1] inside the loop, so the unsigned subtraction does not wrap.) *)
+    [len(block) - 1] is [int] arithmetic ([len >= 1] inside the loop); the conversions to
+    [uint32] keep the low 32 bits and the [uint32] subtraction wraps ([sub32]) - which it does as
+    soon as the block is longer than 2^32 bytes and [uint32(len-1) < uint32(i)]: the factor is
+    [(len - i) mod 2^32] for every length (Sig/WeakProofs.v [beta_factor]). *)
 Fixpoint beta_loop (len i a b : N) (block : list N) : N * N :=
   match block with
   | [] => (a, b)
   | v :: r =>
     beta_loop len (i + 1)
               (u32 (a + u32 v))
-              (u32 (b + u32 (u32 (u32 (u32 (len - 1) - u32 i) + 1) * u32 v)))
+              (u32 (b + u32 (u32 (sub32 (u32 (len - 1)) (u32 i) + 1) * u32 v)))
               r
   end.
 
